@@ -61,6 +61,7 @@ type Runner struct {
 	Cfg      Config
 	M        State
 	Ever     map[string]bool
+	Written  map[string]map[string]bool // every value ever handed to Put / Batch.Put for a key (even if superseded inside its batch)
 	States   []State // States[j] = model after j acknowledged mutations
 	MutOp    []int   // MutOp[j] = index of the operation that was the j-th mutation (MutOp[0] = -1)
 	V        *Violation
@@ -83,7 +84,7 @@ type Runner struct {
 func NewRunner(c *Case) *Runner {
 	runSerial++
 	root := filepath.Join(ScratchBase, fmt.Sprintf("vsim-%d-%d", os.Getpid(), runSerial))
-	r := &Runner{C: c, Root: root, Cfg: c.Cfg, M: State{}, Ever: map[string]bool{}, Cnt: map[string]int64{},
+	r := &Runner{C: c, Root: root, Cfg: c.Cfg, M: State{}, Ever: map[string]bool{}, Written: map[string]map[string]bool{}, Cnt: map[string]int64{},
 		extra: map[string]interface{}{}}
 	r.States = []State{State{}}
 	r.MutOp = []int{-1}
@@ -139,6 +140,15 @@ func (r *Runner) options(c Config, dir string) kv.Options {
 		DataFileMergeRatio: 0,
 		ShardNum:           c.Shards,
 	}
+}
+
+func (r *Runner) wrote(key, val []byte) {
+	m := r.Written[string(key)]
+	if m == nil {
+		m = map[string]bool{}
+		r.Written[string(key)] = m
+	}
+	m[string(val)] = true
 }
 
 func (r *Runner) inc(name string)            { r.Cnt[name]++ }
@@ -251,6 +261,14 @@ func errName(err error) string {
 }
 
 func beq(a, b []byte) bool { return bytes.Equal(a, b) } // nil == empty
+
+// showN is show with nil and empty unified (transcripts: nil == empty by the oracle's own convention).
+func showN(b []byte) string {
+	if len(b) == 0 {
+		return `""`
+	}
+	return show(b)
+}
 
 func show(b []byte) string {
 	if b == nil {
